@@ -46,8 +46,14 @@ def run(ctx: Ctx):
     res.rule("HOMOGENEITY", "dimensional analysis: every value returned by cp_to_tensor / cp_to_unfolded / cp_to_vec / cp_norm, tucker_to_tensor / _unfolded / _vec, tt_to_tensor / tt_to_vec, tr_to_tensor and parafac2_to_slice has the homogeneity degree of the defining contraction (degree 1 in the weights or core, degree 1 in every factor; mask degree 1 when given), for weights present and absent, on every return path", floor=20)
     ctx.guarded(run_homogeneity, ctx, "HOMOGENEITY", ("tensorly.cp_tensor", "tensorly.tucker_tensor", "tensorly.tt_tensor", "tensorly.tr_tensor", "tensorly.parafac2_tensor"))
     res.rule("REJECT-TWO-SIDED", "every rejecting test of a validator (an `if` whose body raises) is either an (in)equality / count test, or compares a quantity that is non-negative by construction (abs / norm / even power, possibly reduced by max / sum) with its tolerance: a signed deviation compared one-sidedly accepts every factor set that deviates in the other direction", floor=20)
+    res.rule("CHECKS-INDEPENDENT", "in every factorised-tensor validator, a rejecting check (a raise) is never the elif / else arm of a test of the factor-loop index against a position (index == 0, index == n - 1) unless both arms test the same index against different constants: first and last position coincide for a one-factor tensor, and the chained check would be skipped there", floor=8)
     res.rule("NORM-DELEGATES", "every `norm` method of a factorised-tensor wrapper (and of the common base class) returns either the family's factor-based norm function applied to the wrapper itself (degree-checked by HOMOGENEITY) or the backend norm of the wrapper's own dense reconstruction: the norm of a *component* (core, weights, one factor) is not the norm of the represented tensor", floor=2)
     ctx.guarded(norm_delegates, ctx)
+    res.rule("BUFFER-CONTEXT", "in the factorised-tensor modules, a buffer allocated with **context(X) that receives values through index_update(buffer, index, V) takes its context from something computed from everything V is computed from (following the function's own assignments, loop targets and calls): the buffer's dtype is the view's dtype, and a context taken from one factor truncates the other factors' values", floor=2)
+    n_buf = 0
+    for modname, (cls, validator, dense, prefix) in FAMILIES.items():
+        n_buf += ctx.guarded(buffer_context, ctx, repo.module(modname)) or 0
+    res.instance("BUFFER-CONTEXT", "factorised-tensor modules: buffers filled through index_update", sample={"sites": n_buf})
     for modname, (cls, validator, dense, prefix) in FAMILIES.items():
         mod = repo.module(modname)
         ci = repo.cls(f"{modname}.{cls}")
@@ -56,6 +62,7 @@ def run(ctx: Ctx):
         ctx.guarded(ctor_validates, ctx, ci, vf)
         ctx.guarded(views, ctx, mod, ci, df, prefix)
         ctx.guarded(reject_two_sided, ctx, vf)
+        ctx.guarded(checks_independent, ctx, vf)
 
 
 def _dense(repo, modname, dense):
@@ -156,6 +163,179 @@ def _non_negative(e, defs, depth=0) -> bool:
             return _non_negative(e.left, defs, depth + 1) and _non_negative(e.right, defs, depth + 1)
         return False
     return False
+
+
+_ALLOCATORS = {"zeros", "ones", "empty", "full", "zeros_like", "ones_like", "eye"}
+_SHAPE_ONLY = {"shape", "len", "ndim", "range", "max", "min", "prod", "int"}
+
+
+def _buffer_roots(fnode):
+    """roots(e): the parameters / unpacked components an expression's VALUES (hence its dtype) come from, following the
+    function's own assignments, loop targets (zip / enumerate position-aware) and calls (union of the arguments)."""
+    assigns, loops, unpacked = {}, {}, {}
+    params = {a.arg for a in ast.walk(fnode.args) if isinstance(a, ast.arg)}
+
+    def bind_loop(target, it):
+        if isinstance(it, ast.Call) and isinstance(it.func, ast.Name) and it.func.id == "enumerate" and isinstance(target, ast.Tuple) and len(target.elts) == 2:
+            for n_ in ast.walk(target.elts[0]):
+                if isinstance(n_, ast.Name):
+                    loops.setdefault(n_.id, []).append(None)  # a position: carries no values of the data
+            bind_loop(target.elts[1], it.args[0])
+        elif isinstance(it, ast.Call) and isinstance(it.func, ast.Name) and it.func.id == "zip" and isinstance(target, ast.Tuple) and len(target.elts) == len(it.args):
+            for t_, a_ in zip(target.elts, it.args):
+                bind_loop(t_, a_)
+        else:
+            for n_ in ast.walk(target):
+                if isinstance(n_, ast.Name):
+                    loops.setdefault(n_.id, []).append(it)
+
+    for x in own_scope_nodes(fnode):
+        if isinstance(x, ast.Assign):
+            for t in x.targets:
+                if isinstance(t, ast.Name):
+                    assigns.setdefault(t.id, []).append(x.value)
+                elif isinstance(t, (ast.Tuple, ast.List)):
+                    for n_ in ast.walk(t):
+                        if isinstance(n_, ast.Name):
+                            unpacked.setdefault(n_.id, []).append(x.value)
+        elif isinstance(x, ast.AugAssign) and isinstance(x.target, ast.Name):
+            assigns.setdefault(x.target.id, []).append(x.value)
+        elif isinstance(x, (ast.For, ast.comprehension)):
+            bind_loop(x.target, x.iter)
+
+    def roots(e, seen=frozenset()):
+        if e is None or isinstance(e, ast.Constant):
+            return set()
+        if isinstance(e, ast.Name):
+            if e.id in seen:
+                return set()
+            out = set()
+            if e.id in params:
+                out.add(e.id)
+            if e.id in unpacked:
+                out.add(e.id)  # a component of the unpacked object: a leaf of its own
+            for v in assigns.get(e.id, []):
+                out |= roots(v, seen | {e.id})
+            for it in loops.get(e.id, []):
+                if it is not None:
+                    out |= roots(it, seen | {e.id})
+            return out
+        if isinstance(e, ast.Attribute):
+            return set() if e.attr in ("shape", "ndim", "size", "dtype") else roots(e.value, seen)
+        if isinstance(e, ast.Subscript):
+            return roots(e.value, seen)
+        if isinstance(e, ast.Call):
+            if call_name(e) in _SHAPE_ONLY:
+                return set()
+            out = set()
+            for a in list(e.args) + [k.value for k in e.keywords]:
+                out |= roots(a.value if isinstance(a, ast.Starred) else a, seen)
+            if isinstance(e.func, ast.Attribute) and not isinstance(e.func.value, ast.Name):
+                out |= roots(e.func.value, seen)
+            return out
+        out = set()
+        for c in ast.iter_child_nodes(e):
+            if isinstance(c, ast.expr):
+                out |= roots(c, seen)
+        return out
+
+    return roots, assigns, unpacked
+
+
+def buffer_context(ctx, mod):
+    """A dense view that is assembled in a pre-allocated buffer (zero-padded PARAFAC2 slices, padded TT cores) has the
+    dtype of the buffer, whatever is stored into it.  The buffer's context must therefore come from the stored values
+    themselves (or from something computed from everything they are computed from): a context taken from one factor
+    truncates the contraction of an integer factor with floating-point ones."""
+    res = ctx.res
+    n = 0
+    for f in [g for g in ctx.repo.functions.values() if g.module is mod]:
+        sites = [c for c in own_scope_nodes(f.node) if isinstance(c, ast.Call) and call_name(c) == "index_update" and len(c.args) == 3 and isinstance(c.args[0], ast.Name)]
+        if not sites:
+            continue
+        roots, assigns, unpacked = _buffer_roots(f.node)
+        for c in sites:
+            allocs = [v for v in assigns.get(c.args[0].id, []) if isinstance(v, ast.Call) and call_name(v) in _ALLOCATORS]
+            for al in allocs:
+                ctxs = [k.value for k in al.keywords if k.arg is None and isinstance(k.value, ast.Call) and call_name(k.value) == "context" and k.value.args]
+                if not ctxs:
+                    continue
+                n += 1
+                have = roots(ctxs[0].args[0])
+                need = roots(c.args[2])
+
+                def covered(leaf, depth=0):
+                    if leaf in have:
+                        return True
+                    srcs = unpacked.get(leaf, [])
+                    if not srcs or depth > 3:
+                        return False
+                    return all(all(covered(r, depth + 1) for r in roots(e)) and roots(e) for e in srcs)
+
+                missing = sorted(l for l in need if not covered(l))
+                res.instance("BUFFER-CONTEXT", f"{f.qname}: {src(c)[:60]}", sample={"buffer_context_from": sorted(have), "stored_values_from": sorted(need), "ok": not missing})
+                if missing:
+                    ctx.finding("BUFFER-CONTEXT", f, al, f"{f.name}: the buffer `{c.args[0].id}` is allocated in the context (dtype) of `{src(ctxs[0].args[0])[:40]}`, which is computed from {sorted(have)} only, but `{src(c.args[2])[:60]}` stored into it is also computed from {missing}: when those have a wider dtype (integer `{sorted(have)[0] if have else '?'}`, floating-point others) the stored values are truncated to the buffer's dtype and the view no longer equals the defining contraction. Take the context from the stored values", construct=f"{f.name}: buffer {c.args[0].id} typed by {src(ctxs[0].args[0])[:30]}")
+    return n
+
+
+def _terminates(body) -> bool:
+    return bool(body) and isinstance(body[-1], (ast.Raise, ast.Return, ast.Continue, ast.Break))
+
+
+def _position_test(t, index_names):
+    """`i == E` / `E == i` for a loop index i: returns (i, E) or None"""
+    if isinstance(t, ast.Compare) and len(t.ops) == 1 and isinstance(t.ops[0], ast.Eq):
+        l, r = t.left, t.comparators[0]
+        if isinstance(l, ast.Name) and l.id in index_names:
+            return l.id, r
+        if isinstance(r, ast.Name) and r.id in index_names:
+            return r.id, l
+    if isinstance(t, ast.BoolOp) and isinstance(t.op, ast.And):
+        for v in t.values:
+            got = _position_test(v, index_names)
+            if got:
+                return got
+    return None
+
+
+def checks_independent(ctx, vf):
+    """Boundary conditions of a format are checked per position of the factor loop: first factor, last factor.  The
+    two positions coincide for a one-factor tensor, so a check of the last position that is the `elif` / `else` arm of
+    the first position's test is never run there.  Position tests against two different constants exclude each other
+    and are accepted; anything else (0 against n - 1) is not exclusive."""
+    from ..inline import with_inlined
+
+    res = ctx.res
+    vf = with_inlined(ctx.repo, vf)
+    index_names = set()
+    for s in own_scope_nodes(vf.node):
+        if isinstance(s, (ast.For, ast.comprehension)):
+            it = s.iter
+            if isinstance(it, ast.Call) and isinstance(it.func, ast.Name) and it.func.id == "enumerate" and isinstance(s.target, ast.Tuple) and isinstance(s.target.elts[0], ast.Name):
+                index_names.add(s.target.elts[0].id)
+            elif isinstance(it, ast.Call) and isinstance(it.func, ast.Name) and it.func.id == "range" and isinstance(s.target, ast.Name):
+                index_names.add(s.target.id)
+    n = 0
+    for s in own_scope_nodes(vf.node):
+        if not isinstance(s, ast.If):
+            continue
+        first = _position_test(s.test, index_names)
+        if first is None:
+            continue
+        n += 1
+        verdict = "independent"
+        if s.orelse and not _terminates(s.body):
+            lost = [x for y in s.orelse for x in ast.walk(y) if isinstance(x, ast.Raise)]
+            if lost:
+                second = _position_test(s.orelse[0].test, index_names) if len(s.orelse) == 1 and isinstance(s.orelse[0], ast.If) else None
+                exclusive = second is not None and second[0] == first[0] and isinstance(first[1], ast.Constant) and isinstance(second[1], ast.Constant) and first[1].value != second[1].value
+                if not exclusive:
+                    verdict = "LOST-AT-COINCIDENCE"
+                    other = f"`{src(s.orelse[0].test)[:50]}`" if second is not None else "the other arm"
+                    ctx.finding("CHECKS-INDEPENDENT", vf, s, f"{vf.name}: the rejecting check under {other} is the else-arm of the position test `{src(s.test)[:50]}`: when both positions are the same factor (a one-factor tensor: 0 == n - 1) the second check is never run and an object violating that boundary condition is accepted and reconstructed", construct=f"{vf.name}: check chained behind {src(s.test)[:40]}")
+        res.instance("CHECKS-INDEPENDENT", f"{vf.qname}: {src(s.test)[:60]}", sample={"line": s.lineno, "verdict": verdict})
+    res.instance("CHECKS-INDEPENDENT", f"{vf.qname}: position tests on a factor-loop index", sample={"tests": n, "loop_indices": sorted(index_names)})
 
 
 def reject_two_sided(ctx, vf):
